@@ -139,37 +139,43 @@ def otherConsumer (cs : List (Option Nat)) (cur : Nat) : Bool :=
   | [c] => c != some cur
   | _ => true
 
-/-- `can_pack(inp, curr_op)`; `none` = the code raises (IndexError on `ifm_shapes[1]`) -/
+/-- a RELU-type post operation does not share a pass with a LUT / tanh / sigmoid fused activation -/
+def cpActOk (R : Rules) (c n : POp) : Bool :=
+  !(R.actCheck && activationOps.contains c.type && (match n.act with | none => false | some a => !reluOps.contains a))
+
+/-- nothing is packed behind a TRANSPOSE -/
+def cpTransposeOk (R : Rules) (n : POp) : Bool := !(R.transposeCheck && n.origType == opTranspose)
+
+/-- every output of next_op is consumed by curr_op only -/
+def cpConsumersOk (G : Graph) (n : POp) (cur : Nat) : Bool := !(n.outputs.any fun o => otherConsumer (G.tensor o).consumers cur)
+
+/-- no reshaping between next_op's OFM and curr_op's IFM (`none`: IndexError on `ifm_shapes[1]`) -/
+def cpShape (inp : Nat) (c n : POp) : Option Bool :=
+  if c.ifmShapes.length != 0 && n.ofmShapes.length != 0 then
+    if some inp == c.ifm && n.ofmShapes[0]? != c.ifmShapes[0]? then some false
+    else if c.ifm2.isSome && some inp == c.ifm2 then
+      match c.ifmShapes[1]? with
+      | none => none
+      | some s1 => some (n.ofmShapes[0]? == some s1)
+    else some true
+  else some true
+
+/-- curr_op consumes the whole output of next_op (no slice read) -/
+def cpReadOk (R : Rules) (inp : Nat) (c : POp) : Bool :=
+  !(R.readOffsetCheck && ((some inp == c.ifm && c.ro0) || (c.ifm2.isSome && some inp == c.ifm2 && c.ro1)))
+
+/-- `can_pack(inp, curr_op)` with its conditions in the order the code tests them; `none` = the code raises (IndexError on
+    `ifm_shapes[1]`) -/
 def canPack (R : Rules) (G : Graph) (inp cur : Nat) : Option Bool :=
   match (G.tensor inp).ops with
   | [nx] =>
-    let c := G.op cur
-    let n := G.op nx
-    -- a RELU-type post operation does not share a pass with a LUT / tanh / sigmoid fused activation
-    if R.actCheck && activationOps.contains c.type && (match n.act with | none => false | some a => !reluOps.contains a) then some false
-    -- nothing is packed behind a TRANSPOSE
-    else if R.transposeCheck && n.origType == opTranspose then some false
-    -- every output of next_op is consumed by curr_op only
-    else if n.outputs.any (fun o => otherConsumer (G.tensor o).consumers cur) then some false
-    else
-      -- no reshaping between next_op's OFM and curr_op's IFM
-      let shapeRes : Option Bool :=
-        if c.ifmShapes.length != 0 && n.ofmShapes.length != 0 then
-          if some inp == c.ifm && n.ofmShapes[0]? != c.ifmShapes[0]? then some false
-          else if c.ifm2.isSome && some inp == c.ifm2 then
-            match c.ifmShapes[1]? with
-            | none => none
-            | some s1 => if n.ofmShapes[0]? != some s1 then some false else some true
-          else some true
-        else some true
-      match shapeRes with
+    if !cpActOk R (G.op cur) (G.op nx) then some false
+    else if !cpTransposeOk R (G.op nx) then some false
+    else if !cpConsumersOk G (G.op nx) cur then some false
+    else match cpShape inp (G.op cur) (G.op nx) with
       | none => none
       | some false => some false
-      | some true =>
-        -- curr_op consumes the whole output of next_op (no slice read)
-        if R.readOffsetCheck && some inp == c.ifm && c.ro0 then some false
-        else if R.readOffsetCheck && c.ifm2.isSome && some inp == c.ifm2 && c.ro1 then some false
-        else some true
+      | some true => some (cpReadOk R inp (G.op cur))
   | _ => some false
 
 /-! ## the walk of `build_pass` -/
@@ -222,25 +228,38 @@ def scanInputs (R : Rules) (G : Graph) (cur : Nat) : List (Option Nat) → Walk 
       scanInputs R G cur rest { w with queue := w.queue ++ [⟨(G.tensor inp).ops.headD 0, some inp, some cur⟩] }
     | some false => scanInputs R G cur rest { w with inputSet := setInsert w.inputSet inp }
 
+/-- the new entry of `acc` when queue item `q` is accepted by row `ri` -/
+def newAcc (q : QItem) (ri : Nat) : Acc :=
+  ⟨q.op, ri, match q.tens, q.cons with | some t, some c => some (t, c) | _, _ => none⟩
+
+/-- `curr_flags &= ~flags_to_clear; curr_flags |= flags_to_set` -/
+def flagStep (f : Nat) (r : Row) : Nat := clearBits f r.toClear ||| r.toSet
+
+/-- `reverse_ops_list.append(curr_op)`, the major block type / primary operator, the flags -/
+def acceptCore (G : Graph) (w : Walk) (q : QItem) (ri : Nat) (r : Row) : Walk :=
+  let nbt := blockTypeOf (G.op q.op).type
+  { w with acc := newAcc q ri :: w.acc,
+           blockType := if nbt != 0 then nbt else w.blockType,
+           primary := if nbt != 0 then some q.op else w.primary,
+           flags := flagStep w.flags r }
+
+/-- an NPU row that sets Mac / ElementWise / Post / PostFusingLimited / Memcpy records the operator's IFM -/
+def setIfm (G : Graph) (w : Walk) (o : POp) (r : Row) : Walk :=
+  if hasFlag r.toSet flagNpu && hasFlag r.toSet ifmRowMask then
+    if o.inputs.length < 1 then w.fail "assert len(curr_op.inputs) >= 1"
+    else match o.ifm with
+      | none => w.fail "assert ifm_tensor is not None"
+      | some t =>
+        if (G.tensor t).purpose != purposeFeatureMap then w.fail "assert ifm_tensor.purpose == FeatureMap"
+        else { w with ifm := some t, ifmShapes := some o.ifmShapes }
+  else w
+
 /-- the body executed when row `ri` accepts the operator of queue item `q` -/
 def acceptOp (R : Rules) (G : Graph) (w : Walk) (q : QItem) (ri : Nat) (r : Row) : Walk :=
   let o := G.op q.op
-  let nbt := blockTypeOf o.type
-  if nbt != 0 && (w.blockType != 0 || w.primary.isSome) then w.fail "assert: one major block type per pass"
+  if blockTypeOf o.type != 0 && (w.blockType != 0 || w.primary.isSome) then w.fail "assert: one major block type per pass"
   else
-    let w := { w with acc := ⟨q.op, ri, match q.tens, q.cons with | some t, some c => some (t, c) | _, _ => none⟩ :: w.acc,
-                      blockType := if nbt != 0 then nbt else w.blockType,
-                      primary := if nbt != 0 then some q.op else w.primary,
-                      flags := clearBits w.flags r.toClear ||| r.toSet }
-    let w :=
-      if hasFlag r.toSet flagNpu && hasFlag r.toSet ifmRowMask then
-        if o.inputs.length < 1 then w.fail "assert len(curr_op.inputs) >= 1"
-        else match o.ifm with
-          | none => w.fail "assert ifm_tensor is not None"
-          | some t =>
-            if (G.tensor t).purpose != purposeFeatureMap then w.fail "assert ifm_tensor.purpose == FeatureMap"
-            else { w with ifm := some t, ifmShapes := some o.ifmShapes }
-      else w
+    let w := setIfm G (acceptCore G w q ri r) o r
     if w.err.isSome then w
     else if r.set.isNone && o.runOnNpu then w.fail "assert not curr_op.run_on_npu (fall-back row)"
     else scanInputs R G q.op o.inputs.reverse w
@@ -364,75 +383,145 @@ def binaryIfmShapes (G : Graph) (ifm ifm2 : Option Nat) : List Nat → Except St
     let more ← binaryIfmShapes G ifm ifm2 rest
     pure (here ++ more)
 
-/-- everything `build_pass` does after the walk. `ofm` / `ofmShape` are the arguments of `build_pass`. -/
-def finishPass (G : Graph) (w : Walk) (ofm : Option Nat) (ofmShape : Option Shape) : Except String Pass := do
-  if let some e := w.err then throw e
-  let ops := w.ops
-  let flags := if hasFlag w.flags flagNpu && !hasFlag w.flags (flagElementWise ||| flagMac) then w.flags ||| flagElementWise else w.flags
-  let isEw := ops.all fun o => elemWiseOps.contains (G.op o).type
-  let placement ← placementOf flags
-  let first ← match ops.head? with | some o => pure o | none => throw "IndexError: ops_list[0]"
-  -- create_primary_op
-  let needCreate := w.primary.isNone && ops.any fun o => (npuPostOps.contains (G.op o).type || npuPostFuseLimitedOps.contains (G.op o).type) && (G.op o).runOnNpu
-  let createdInp ← if needCreate then
-      match (G.op first).inputs.head? with
-      | some (some t) => pure (some t)
-      | some none => throw "AttributeError: create_primary_op on a None input"
-      | none => throw "IndexError: op.inputs[0]"
-    else pure none
-  let primary : Primary := match w.primary with | some o => .real o | none => if needCreate then .created else .none
-  let blockType := if needCreate then blockTypeOf opAvgPool else w.blockType
-  let inputSet := match createdInp with | some t => setInsert w.inputSet t | none => w.inputSet
-  -- the inputs of the operators as the ordering loops see them (the first operator's input 0 now is the average pool's output)
-  let inputsOf (o : Nat) : List (Option Nat) :=
-    if needCreate && o == first then (G.op o).inputs.drop 1 else (G.op o).inputs
-  let primaryInputs : List (Option Nat) := match primary with
-    | .real o => (G.op o).inputs
-    | .created => [createdInp]
-    | .none => []
-  let a := addInputs G inputSet {} primaryInputs
-  let restOps := match primary with | .real o => removeFirst ops o | _ => ops
-  let a := restOps.foldl (fun a o => addInputs G inputSet a (inputsOf o)) a
-  let last ← match ops.getLast? with | some o => pure o | none => throw "IndexError: ops_list[-1]"
-  let primType : Option Nat := match primary with | .real o => some (G.op o).type | .created => some opAvgPool | .none => none
-  let primNpu : Bool := match primary with | .real o => (G.op o).runOnNpu | .created => true | .none => false
-  let isBinary := match primType with | some t => binaryElemWiseMainOps.contains t | none => false
-  let (ifm, ifm2, ifmShapes) ← if isBinary then do
-      let i0 ← match a.ordered.head? with | some t => pure t | none => throw "IndexError: ps.inputs[0]"
-      let i2 ← match a.ordered.getLast? with | some t => pure t | none => throw "IndexError: ps.inputs[-1]"
+/-! everything `build_pass` does after the walk, as total functions of the final walk state plus the list of things that make the
+code raise (`finishErr`); `finishPass` is their combination -/
+
+/-- the ElementWise default of an NPU pass without Mac / ElementWise -/
+def finFlags (w : Walk) : Nat :=
+  if hasFlag w.flags flagNpu && !hasFlag w.flags (flagElementWise ||| flagMac) then w.flags ||| flagElementWise else w.flags
+
+def isPostLike (G : Graph) (o : Nat) : Bool :=
+  (npuPostOps.contains (G.op o).type || npuPostFuseLimitedOps.contains (G.op o).type) && (G.op o).runOnNpu
+
+/-- `create_primary_op` makes a 1x1 average pool: no primary operator yet and an NPU post operation in the pass -/
+def needCreate (G : Graph) (w : Walk) : Bool := w.primary.isNone && w.ops.any (isPostLike G)
+
+/-- `ops_list[0]` -/
+def firstOp (w : Walk) : Nat := w.ops.headD 0
+
+/-- the input of the created average pool: `ops_list[0].inputs[0]` -/
+def createdInp (G : Graph) (w : Walk) : Option Nat :=
+  if needCreate G w then (G.op (firstOp w)).inputs.headD none else none
+
+def finPrimary (G : Graph) (w : Walk) : Primary :=
+  match w.primary with
+  | some o => .real o
+  | none => if needCreate G w then .created else .none
+
+/-- `input_set` after `create_primary_op` added the average pool's input -/
+def finInputSet (G : Graph) (w : Walk) : List Nat :=
+  match createdInp G w with
+  | some t => setInsert w.inputSet t
+  | none => w.inputSet
+
+/-- the inputs of an operator as the ordering loops see them (input 0 of the first operator now is the average pool's output,
+    a new tensor that is in no set) -/
+def inputsOf (G : Graph) (w : Walk) (o : Nat) : List (Option Nat) :=
+  if needCreate G w && o == firstOp w then (G.op o).inputs.drop 1 else (G.op o).inputs
+
+def primaryInputs (G : Graph) (w : Walk) : List (Option Nat) :=
+  match finPrimary G w with
+  | .real o => (G.op o).inputs
+  | .created => [createdInp G w]
+  | .none => []
+
+/-- `input_ops_list` after `remove(primary_op)` (without the created average pool) -/
+def restOps (G : Graph) (w : Walk) : List Nat :=
+  match finPrimary G w with
+  | .real o => removeFirst w.ops o
+  | _ => w.ops
+
+/-- ordered inputs, LUTs, `input_refcounts`: the primary operator first, then the rest of the list -/
+def finInAcc (G : Graph) (w : Walk) : InAcc :=
+  (restOps G w).foldl (fun a o => addInputs G (finInputSet G w) a (inputsOf G w o))
+    (addInputs G (finInputSet G w) {} (primaryInputs G w))
+
+def primIsBinary (G : Graph) (w : Walk) : Bool :=
+  match finPrimary G w with
+  | .real o => binaryElemWiseMainOps.contains (G.op o).type
+  | .created => binaryElemWiseMainOps.contains opAvgPool
+  | .none => false
+
+def primNpu (G : Graph) (w : Walk) : Bool :=
+  match finPrimary G w with
+  | .real o => (G.op o).runOnNpu
+  | .created => true
+  | .none => false
+
+/-- `ps.ifm_tensor`, `ps.ifm2_tensor`, `ps.ifm_shapes` -/
+def finSlots (G : Graph) (w : Walk) : Except String (Option Nat × Option Nat × List Shape) :=
+  let a := finInAcc G w
+  if primIsBinary G w then
+    match a.ordered.head?, a.ordered.getLast? with
+    | some i0, some i2 =>
       let i1 := if a.ordered.length > 2 then a.ordered.getD (a.ordered.length - 2) i0 else i0
-      let shapes ← binaryIfmShapes G (some i1) (some i2) (restOps ++ (match primary with | .real o => [o] | _ => []))
-      pure (some i1, some i2, shapes)
-    else do
-      let shapes ← if primary != .none && primNpu then
-          match w.ifmShapes with
-          | none => throw "TypeError: ifm_shapes is None"
-          | some l => match l[0]? with | some s => pure [s] | none => throw "IndexError: ifm_shapes[0]"
-        else pure []
-      pure (w.ifm, none, shapes)
-  if placement == .npu && ofm.isNone then throw "assert ps.placement != Npu or ps.ofm_tensor is not None"
-  let (weights, scale, lut) := match primary with
-    | .real o => ((G.op o).weights, (G.op o).bias, (G.op o).actLut)
-    | _ => (none, none, none)
-  pure { acc := w.acc, primary, placement, flags, isElementWise := isEw, blockType,
-         inputs := a.ordered ++ a.luts, inputRefs := a.refs, outputs := (G.op last).outputs,
-         ifm, ifm2, ofm, weights, scale, lut, ifmShapes, ofmShape }
+      match binaryIfmShapes G (some i1) (some i2) (restOps G w ++ (match finPrimary G w with | .real o => [o] | _ => [])) with
+      | .error e => .error e
+      | .ok shapes => .ok (some i1, some i2, shapes)
+    | _, _ => .error "IndexError: ps.inputs[0]"
+  else if finPrimary G w != .none && primNpu G w then
+    match w.ifmShapes with
+    | none => .error "TypeError: ifm_shapes is None"
+    | some l => match l[0]? with
+      | some s => .ok (w.ifm, none, [s])
+      | none => .error "IndexError: ifm_shapes[0]"
+  else .ok (w.ifm, none, [])
+
+/-- what makes the rest of `build_pass` raise, in the order the code gets there (`none`: it does not raise) -/
+def finishErr (G : Graph) (w : Walk) (ofm : Option Nat) : Option String :=
+  match w.err with
+  | some e => some e
+  | none =>
+    match placementOf (finFlags w) with
+    | .error e => some e
+    | .ok pl =>
+      if w.ops.isEmpty then some "IndexError: ops_list[0]"
+      else if needCreate G w && (G.op (firstOp w)).inputs.isEmpty then some "IndexError: op.inputs[0]"
+      else if needCreate G w && (createdInp G w).isNone then some "AttributeError: create_primary_op on a None input"
+      else match finSlots G w with
+        | .error e => some e
+        | .ok _ =>
+          if pl == .npu && ofm.isNone then some "assert ps.placement != Npu or ps.ofm_tensor is not None" else none
+
+/-- the pass, when nothing raises -/
+def finishPure (G : Graph) (w : Walk) (ofm : Option Nat) (ofmShape : Option Shape) : Pass :=
+  let a := finInAcc G w
+  let slots := (finSlots G w).toOption.getD (none, none, [])
+  { acc := w.acc, primary := finPrimary G w,
+    placement := (placementOf (finFlags w)).toOption.getD .cpu,
+    flags := finFlags w,
+    isElementWise := w.ops.all fun o => elemWiseOps.contains (G.op o).type,
+    blockType := if needCreate G w then blockTypeOf opAvgPool else w.blockType,
+    inputs := a.ordered ++ a.luts, inputRefs := a.refs,
+    outputs := (G.op (w.ops.getLast?.getD 0)).outputs,
+    ifm := slots.1, ifm2 := slots.2.1, ofm := ofm,
+    weights := match finPrimary G w with | .real o => (G.op o).weights | _ => none,
+    scale := match finPrimary G w with | .real o => (G.op o).bias | _ => none,
+    lut := match finPrimary G w with | .real o => (G.op o).actLut | _ => none,
+    ifmShapes := slots.2.2, ofmShape := ofmShape }
+
+/-- everything `build_pass` does after the walk. `ofm` / `ofmShape` are the arguments of `build_pass`. -/
+def finishPass (G : Graph) (w : Walk) (ofm : Option Nat) (ofmShape : Option Shape) : Except String Pass :=
+  match finishErr G w ofm with
+  | some e => .error e
+  | none => .ok (finishPure G w ofm ofmShape)
 
 /-- `build_pass((op,), ofm_tensor, ofm_shape)` as `visit_op` calls it -/
-def buildPass (R : Rules) (G : Graph) (o : Nat) : Except String Pass := do
+def buildPass (R : Rules) (G : Graph) (o : Nat) : Except String Pass :=
   let op := G.op o
-  let ofm ← match op.outputs.head? with | some t => pure t | none => throw "IndexError: op.outputs[0]"
-  let ofmShape ← if op.runOnNpu then
-      match op.ofmShapes[0]? with | some s => pure (some s) | none => throw "IndexError: op.ofm_shapes[0]"
-    else pure none
-  finishPass G (walkRun R G (walkFuel G 1) (walkStart [o])) (some ofm) ofmShape
+  match op.outputs.head? with
+  | none => .error "IndexError: op.outputs[0]"
+  | some ofm =>
+    if op.runOnNpu && op.ofmShapes.isEmpty then .error "IndexError: op.ofm_shapes[0]"
+    else finishPass G (walkRun R G (walkFuel G 1) (walkStart [o])) (some ofm) (if op.runOnNpu then op.ofmShapes[0]? else none)
 
 /-- `build_pass(startup_list)` with the fix-up of the outputs -/
-def buildStartupPass (R : Rules) (G : Graph) (startup : List Nat) : Except String Pass := do
-  let p ← finishPass G (walkRun R G (walkFuel G startup.length) (walkStart startup)) none none
-  let outs ← startup.mapM fun o => match (G.op o).outputs.head? with
-    | some t => pure t | none => throw "IndexError: startup op.outputs[0]"
-  pure { p with outputs := outs, isStartup := true }
+def buildStartupPass (R : Rules) (G : Graph) (startup : List Nat) : Except String Pass :=
+  match finishPass G (walkRun R G (walkFuel G startup.length) (walkStart startup)) none none with
+  | .error e => .error e
+  | .ok p =>
+    if startup.any fun o => (G.op o).outputs.isEmpty then .error "IndexError: startup op.outputs[0]"
+    else .ok { p with outputs := startup.map fun o => (G.op o).outputs.headD 0, isStartup := true }
 
 /-! ## `visit_tensor` / `visit_op` -/
 
